@@ -220,6 +220,55 @@ def run(tier, rep):
     specials["long-function"] = {
         "Long": "package Long\n\nfn run(a0: int32) -> int32 {\n" + long_lets + "\n    a159\n}\n",
         "Main": "package Main\nimport Long\n\nfn main() {\n    let _ = string_println(int32_to_string(Long::run(1)));\n    ()\n}\n"}
+    # extern types bound to Go packages, declared in a dependency and in the root package
+    specials["extern-types"] = {
+        "Tm": "package Tm\n\nextern type Time\nextern \"go\" \"time\" unix(secs: int32, nanos: int32) -> Time\nextern \"go\" \"fmt\" \"Sprintf\" show(f: string, v: Time) -> string\n",
+        "Main": "package Main\nimport Tm\n\nextern type Duration\nextern \"go\" \"time\" duration(nanos: int32) -> Duration\nextern \"go\" \"fmt\" \"Sprintf\" showd(f: string, v: Duration) -> string\n"
+                "fn main() {\n    let _ = string_println(Tm::show(\"%v\", Tm::unix(1, 2)) + showd(\"%v\", duration(5)));\n    ()\n}\n"}
+    # ---- projects the whole-program route rejects: the separate route must not produce a linked program either
+    rejects = {
+        "match-compilation-error-in-dependency": {
+            "Codes": "package Codes\n\nfn name(c: int32) -> string {\n    match c { 0 => \"zero\", 1 => \"one\" }\n}\n",
+            "Main": "package Main\nimport Codes\n\nfn main() {\n    let _ = string_println(Codes::name(1));\n    ()\n}\n"},
+        "match-compilation-error-in-root": {
+            "Codes": "package Codes\n\nfn one() -> int32 { 1 }\n",
+            "Main": "package Main\nimport Codes\n\nfn main() {\n    let _ = string_println(match Codes::one() { 0 => \"zero\", 1 => \"one\" });\n    ()\n}\n"},
+        "type-error-in-dependency": {
+            "Codes": "package Codes\n\nfn name(c: int32) -> string { c }\n",
+            "Main": "package Main\nimport Codes\n\nfn main() {\n    let _ = string_println(Codes::name(1));\n    ()\n}\n"},
+        "derive-error-in-dependency": {
+            "Codes": "package Codes\n\n#[derive(ToString)]\nstruct Bx[T] { v: T }\nfn one() -> int32 { 1 }\n",
+            "Main": "package Main\nimport Codes\n\nfn main() {\n    let _ = string_println(int32_to_string(Codes::one()));\n    ()\n}\n"},
+        "unresolved-name-in-dependency": {
+            "Codes": "package Codes\n\nfn one() -> int32 { nowhere }\n",
+            "Main": "package Main\nimport Codes\n\nfn main() {\n    let _ = string_println(int32_to_string(Codes::one()));\n    ()\n}\n"},
+    }
+    for rname, pk in rejects.items():
+        proj = os.path.join(root, "reject_" + rname)
+        os.makedirs(f"{proj}/Codes"); os.makedirs(proj + "/out")
+        open(f"{proj}/Codes/lib.gom", "w").write(pk["Codes"])
+        open(f"{proj}/main.gom", "w").write(pk["Main"])
+        whole = gv("compile", [{"id": rname, "path": proj + "/main.gom"}])[0]
+        if whole["verdict"] == "ok":
+            raise ToolError(f"project {rname} was expected to be rejected by the whole-program route")
+        if whole["verdict"] in ("panic", "timeout"):
+            continue          # C04's business
+        chain_ok = True
+        for p2, f2 in (("Codes", f"{proj}/Codes/lib.gom"), ("Main", proj + "/main.gom")):
+            ok, err, pan = cli(["build", "--package", p2, "--input", f2, "--interface-path", f"{proj}/out", "--output", f"{proj}/out/{p2}"])
+            steps += 1
+            if pan:
+                rep.violation(f"panic:build:reject:{rname}", {"package": p2, "stderr": err})
+            if not ok:
+                chain_ok = False
+                break
+        if chain_ok:
+            ok, err, pan = cli(["link", "--input", f"{proj}/out/Codes.core", f"{proj}/out/Main.core", "--output", f"{proj}/out/linked.go"])
+            steps += 1
+            if ok:
+                rep.violation(f"accepted-one-way-only:separate:{rname}", {"whole_program": whole["verdict"], "whole_diagnostics": [d_["msg"] for d_ in whole.get("diags", [])][:2],
+                                                                          "separate": "build, build and link all succeeded"})
+    rep.coverage["projects_rejected_both_ways"] = len(rejects)
     for sname, pk in specials.items():
         proj = os.path.join(root, "special_" + sname)
         dep = [p_ for p_ in pk if p_ != "Main"][0]
@@ -259,6 +308,9 @@ def run(tier, rep):
         # the linked text imports what the whole-program text imports (extern packages)
         import re as _re2
         imps = lambda t: sorted(_re2.findall(r'^\s+"([\w/]+)"$', t, _re2.M))
+        tdecls = lambda t: sorted(_re2.findall(r"^type (\w+ =? ?[\w.]*)", t, _re2.M))
+        if tdecls(open(f"{proj}/out/linked.go").read()) != tdecls(whole["go"]):
+            rep.violation(f"linked-type-declarations-differ:special:{sname}", {"whole": tdecls(whole["go"]), "linked": tdecls(open(f"{proj}/out/linked.go").read())})
         if imps(open(f"{proj}/out/linked.go").read()) != imps(whole["go"]):
             rep.violation(f"linked-imports-differ:special:{sname}", {"whole": imps(whole["go"]), "linked": imps(open(f"{proj}/out/linked.go").read())})
     # ---- GoStatic + GoSem over all Go texts; linked outcome must equal the whole-program outcome of the same (shape, flavour)
